@@ -259,10 +259,14 @@ class ConvexSpheropolygon(Shape2D):
             phi = np.arctan2(v[1], v[0])
             if phi < 0:
                 phi += 2 * np.pi
-            a = 1
-            b = -2 * norm_v * np.cos(angles[indices] - phi)
-            c = norm_v**2 - self.radius**2
-            kernel[indices] = (-b + np.sqrt(b**2 - 4 * a * c)) / (2 * a)
+            # Distance along the ray to the circle of radius r about the vertex:
+            # |v| cos(delta) + sqrt(r^2 - |v|^2 sin^2(delta)). Written this way the
+            # square root does not suffer cancellation where its argument vanishes
+            # (the ends of the arc; for radius 0 the vertex direction itself), and
+            # rounding cannot push the argument below zero.
+            delta = angles[indices] - phi
+            under_root = np.maximum(self.radius**2 - (norm_v * np.sin(delta)) ** 2, 0)
+            kernel[indices] = norm_v * np.cos(delta) + np.sqrt(under_root)
 
         return kernel
 
